@@ -123,6 +123,7 @@ def shards(tier, seed):
         for backend in ("numba", "numpy"):
             out.append({"part": "nonfinite1d", "container": cn, "order": 0, "seed": seed, "backend": backend})
     out.append({"part": "untouched", "seed": seed})
+    out.append({"part": "bigN", "seed": seed})
     out.append({"part": "layout", "seed": seed})
     n = 6 if tier == "quick" else 8
     M = 3 ** n
@@ -134,7 +135,7 @@ def shards(tier, seed):
 
 def run_shard(shard):
     ana.quiet()
-    return {"nonfinite": _nonfinite, "nonfinite1d": _nonfinite1d, "layout": _layout, "finite": _finite, "untouched": _untouched,
+    return {"nonfinite": _nonfinite, "nonfinite1d": _nonfinite1d, "layout": _layout, "finite": _finite, "untouched": _untouched, "bigN": _bign,
             "finite1": _finite_case}[shard["part"]](shard)
 
 
@@ -352,6 +353,47 @@ def _untouched(shard):
                             seen.add(key)
                             out["failures"].append(fw.fail(key, f"{tag}: the caller's (finite) array was modified: now {np.asarray(s_).tolist()}", dict(shard)))
     out["samples"].append({"untouched": "containers x backends x orders, plan/compute/single-bin(L=4, L=N)"})
+    return out
+
+
+def _bign(shard):
+    """Records of realistic length: non-finite samples at the first, middle and last position (and a run of them)."""
+    N = 5000
+    out = {"evals": 0, "nontrivial": 0, "failures": [], "samples": [], "extra": {"caller_arrays_checked": 0}}
+    seen = set()
+    x0, y0 = records.id1(N) + 0.25, records.id3(N)
+    kw = dict(olap=0.5, Jdes=40, Kdes=8, win="hann", scheduler="vectorized_ltf")
+    conts = containers()
+    for cn in ("c64", "nx2_F", "fortran", "f32", "listarr", "readonly"):
+        for idx, kind, who, backend in itertools.product(([0], [N // 2], [N - 1], list(range(100, 140)), [0, N - 1]), ("nan", "ninf", "mixed"), ("x", "y", "both"), ("numba", "numpy")):
+            xp = poison(x0, kind, idx) if who in ("x", "both") else x0
+            yp = poison(y0, kind, idx) if who in ("y", "both") else y0
+            obj, snaps = conts[cn](xp, yp)
+            before = [s_.tobytes() for s_ in snaps]
+            tag = f"bigN/{cn}/{backend}"
+            out["evals"] += 1
+            out["nontrivial"] += 1
+            try:
+                r = ana.make_analyzer(obj, 2.0, order=1, backend=backend, **kw).compute()
+                zx, zy = zero_fill(xp), zero_fill(yp)
+                if cn == "f32":
+                    zx, zy = zx.astype(np.float32).astype(np.float64), zy.astype(np.float32).astype(np.float64)
+                clean = ana.make_analyzer(np.stack([zx, zy]), 2.0, order=1, backend=backend, **kw).compute()
+            except Exception as e:  # noqa: BLE001
+                if f"raises/{tag}" not in seen:
+                    seen.add(f"raises/{tag}")
+                    out["failures"].append(fw.fail(f"raises/{tag}", f"N={N}: non-finite input ({kind} at {idx[:3]}.. in {who}) raised {type(e).__name__}: {e}", dict(shard)))
+                continue
+            k = same(rawdict(r), rawdict(clean))
+            if k is not None and f"result/{tag}" not in seen:
+                seen.add(f"result/{tag}")
+                out["failures"].append(fw.fail(f"result/{tag}", f"N={N}: {kind} at {idx[:3]}.. of {who}: field {k} differs from the zero-filled record's result", dict(shard)))
+            out["extra"]["caller_arrays_checked"] += len(snaps)
+            for s_, b in zip(snaps, before):
+                if s_.tobytes() != b and f"mutated/{tag}" not in seen:
+                    seen.add(f"mutated/{tag}")
+                    out["failures"].append(fw.fail(f"mutated/{tag}", f"N={N}: caller's array modified ({kind} at {idx[:3]}.. of {who})", dict(shard)))
+    out["samples"].append({"bigN": N, "positions": "first, middle, last, a run of 40, both ends"})
     return out
 
 
